@@ -4,7 +4,8 @@
      dds/src/dcps/infrastructure/time.rs        (derived order of Duration, PartialOrd of DurationKind),
      dds/src/dcps/dcps_domain_participant/discovery_methods.rs
         get_discovered_reader_incompatible_qos_policy_list  (l. 3237)
-        get_discovered_writer_incompatible_qos_policy_list  (l. 3292)
+        get_discovered_writer_incompatible_qos_policy_list  (l. 3295)
+     as they read after the fix commits f03d4da (liveliness) and 908a0e8 (presentation)
    and, separately, the request/offered table of DDS 1.4 (2.2.3) + DDS-XTypes 7.6.3.1
    (`dds_rxo`), written without looking at the code.  Definitions only. *)
 From DustDDS Require Export Base.Machine.
@@ -108,7 +109,9 @@ Definition deadline_policy_pcmp (a b : duration_kind) : pcmp := duration_kind_pc
 (* #[derive(PartialOrd)] struct LatencyBudgetQosPolicy { duration: DurationKind } *)
 Definition latency_policy_pcmp (a b : duration_kind) : pcmp := duration_kind_pcmp a b.
 (* #[derive(PartialOrd)] struct LivelinessQosPolicy { kind, lease_duration }  (qos_policy.rs:775):
-   the derive compares `kind` first and the lease only on equal kinds *)
+   the derive compares `kind` first and the lease only on equal kinds.  Since fix f03d4da the
+   two functions below no longer use this order (they compare the two fields separately);
+   the definition is kept as the transcription of the derive that still exists. *)
 Record liveliness_policy : Type := mkliveliness { l_kind : liveliness_kind; l_lease : duration_kind }.
 Definition liveliness_policy_pcmp (a b : liveliness_policy) : pcmp :=
   lex (liveliness_kind_pcmp (l_kind a) (l_kind b)) (duration_kind_pcmp (l_lease a) (l_lease b)).
@@ -160,12 +163,14 @@ Definition push_if (b : bool) (id : Z) : list Z := if b then [id] else [].
 Definition reader_incompatible (w r : eqos) : list Z :=
   push_if (p_lt (durability_policy_pcmp (q_durability w) (q_durability r))) DURABILITY_ID ++
   push_if (p_lt (access_scope_pcmp (p_scope (q_presentation w)) (p_scope (q_presentation r)))
-           || negb (Bool.eqb (p_coherent (q_presentation w)) (p_coherent (q_presentation r)))
-           || negb (Bool.eqb (p_ordered (q_presentation w)) (p_ordered (q_presentation r))))
+           || (p_coherent (q_presentation r) && negb (p_coherent (q_presentation w)))
+           || (p_ordered (q_presentation r) && negb (p_ordered (q_presentation w))))
           PRESENTATION_ID ++
   push_if (p_gt (deadline_policy_pcmp (q_deadline w) (q_deadline r))) DEADLINE_ID ++
   push_if (p_gt (latency_policy_pcmp (q_latency w) (q_latency r))) LATENCYBUDGET_ID ++
-  push_if (p_lt (liveliness_policy_pcmp (q_liveliness w) (q_liveliness r))) LIVELINESS_ID ++
+  push_if (p_lt (liveliness_kind_pcmp (l_kind (q_liveliness w)) (l_kind (q_liveliness r)))
+           || p_gt (duration_kind_pcmp (l_lease (q_liveliness w)) (l_lease (q_liveliness r))))
+          LIVELINESS_ID ++
   push_if (p_lt (reliability_kind_pcmp (q_reliability w) (q_reliability r))) RELIABILITY_ID ++
   push_if (p_lt (destination_order_policy_pcmp (q_destination_order w) (q_destination_order r)))
           DESTINATIONORDER_ID ++
@@ -180,13 +185,15 @@ Definition reader_incompatible (w r : eqos) : list Z :=
    Note the different push order (PRESENTATION first). *)
 Definition writer_incompatible (r w : eqos) : list Z :=
   push_if (p_gt (access_scope_pcmp (p_scope (q_presentation r)) (p_scope (q_presentation w)))
-           || negb (Bool.eqb (p_coherent (q_presentation r)) (p_coherent (q_presentation w)))
-           || negb (Bool.eqb (p_ordered (q_presentation r)) (p_ordered (q_presentation w))))
+           || (p_coherent (q_presentation r) && negb (p_coherent (q_presentation w)))
+           || (p_ordered (q_presentation r) && negb (p_ordered (q_presentation w))))
           PRESENTATION_ID ++
   push_if (p_gt (durability_policy_pcmp (q_durability r) (q_durability w))) DURABILITY_ID ++
   push_if (p_lt (deadline_policy_pcmp (q_deadline r) (q_deadline w))) DEADLINE_ID ++
   push_if (p_lt (latency_policy_pcmp (q_latency r) (q_latency w))) LATENCYBUDGET_ID ++
-  push_if (p_gt (liveliness_policy_pcmp (q_liveliness r) (q_liveliness w))) LIVELINESS_ID ++
+  push_if (p_gt (liveliness_kind_pcmp (l_kind (q_liveliness r)) (l_kind (q_liveliness w)))
+           || p_lt (duration_kind_pcmp (l_lease (q_liveliness r)) (l_lease (q_liveliness w))))
+          LIVELINESS_ID ++
   push_if (p_gt (reliability_kind_pcmp (q_reliability r) (q_reliability w))) RELIABILITY_ID ++
   push_if (p_gt (destination_order_policy_pcmp (q_destination_order r) (q_destination_order w)))
           DESTINATIONORDER_ID ++
@@ -285,7 +292,7 @@ Definition spec_failing (off req : eqos) : list Z :=
   filter (fun id => spec_policy_fails id off req) rxo_policy_ids.
 Definition dds_rxo (off req : eqos) : bool := is_empty (spec_failing off req).
 
-(* ------------------------------------------------------------------ domain and known classes *)
+(* ------------------------------------------------------------------ domain *)
 (* Duration values built by Duration::new are normalized (C14): 0 <= nanosec < 10^9. *)
 Definition duration_normalized (d : duration) : Prop := 0 <= d_nanosec d < NANOS_PER_SEC.
 Definition dk_normalized (k : duration_kind) : Prop :=
@@ -296,32 +303,3 @@ Definition dk_normalizedb (k : duration_kind) : bool :=
   match k with Finite d => (0 <=? d_nanosec d) && (d_nanosec d <? NANOS_PER_SEC) | Infinite => true end.
 Definition eqos_normalizedb (q : eqos) : bool :=
   dk_normalizedb (q_deadline q) && dk_normalizedb (q_latency q) && dk_normalizedb (l_lease (q_liveliness q)).
-
-Definition spec_dk_eqb (a b : duration_kind) : bool := spec_dk_leb a b && spec_dk_leb b a.
-
-(* class 1 (finding C15-liveliness-lexicographic): the derived lexicographic order of
-   LivelinessQosPolicy looks at the lease only when the kinds are equal, and then in the
-   wrong direction.  Exactly the pairs on which the code's liveliness verdict is not the
-   standard's: equal kinds and different leases, or a stronger offered kind together with
-   a longer offered lease. *)
-Definition known_liveliness (off req : eqos) : bool :=
-  let ko := liveliness_rank (l_kind (q_liveliness off)) in
-  let kr := liveliness_rank (l_kind (q_liveliness req)) in
-  ((ko =? kr) && negb (spec_dk_eqb (l_lease (q_liveliness off)) (l_lease (q_liveliness req))))
-  || ((kr <? ko) && negb (spec_liveliness_lease_ok off req)).
-
-(* class 2 (finding C15-presentation-neq): coherent_access / ordered_access are compared
-   with `!=`; the standard only fails when the reader requests what the writer does not
-   offer.  Exactly the pairs the standard accepts although a flag is offered and not
-   requested. *)
-Definition known_presentation (off req : eqos) : bool :=
-  spec_presentation_ok off req
-  && ((p_coherent (q_presentation off) && negb (p_coherent (q_presentation req)))
-      || (p_ordered (q_presentation off) && negb (p_ordered (q_presentation req)))).
-
-(* per policy: is the pair in the class where the code's verdict on policy `id` is wrong? *)
-Definition known_for (id : Z) (off req : eqos) : bool :=
-  if id =? LIVELINESS_ID then known_liveliness off req
-  else if id =? PRESENTATION_ID then known_presentation off req
-  else false.
-Definition known_rxo (off req : eqos) : bool := known_liveliness off req || known_presentation off req.
